@@ -283,7 +283,49 @@ def mutate_and_check(ctx, col, cname, base, basedig):
                                     k, junk, jtype(junk), OPT_TYPE[k].__name__), case)
                     note(slot, junk, m is not None)
                     n_mut += 1
+    # role announcements (HELLO / WELCOME): every feature of every admissible role is a boolean per the WAMP spec; any other type, and feature names
+    # that collide with nothing in the spec, are untrusted input too
+    if cname in ("Hello", "Welcome"):
+        pos = 2
+        roles_ok = ["subscriber", "publisher", "caller", "callee"] if cname == "Hello" else ["broker", "dealer"]
+        for role in roles_ok:
+            for feat in ROLE_FEATURES[role] + ["self", "kwargs", "x_unknown_feature", ""]:
+                for junk in JUNK:
+                    d = dict(base[pos])
+                    roles = dict(d.get("roles") or {})
+                    rd = dict(roles.get(role) or {})
+                    feats = dict(rd.get("features") or {})
+                    feats[feat] = junk
+                    rd["features"] = feats
+                    roles[role] = rd
+                    d["roles"] = roles
+                    w = list(base)
+                    w[pos] = d
+                    slot = "role:%s.%s" % (role, feat)
+                    key = "C08|%s|%s|junk:%s" % (cname, slot, jtype(junk))
+                    case = {"check": "structured", "cls": cname, "w": w, "slot": slot}
+                    m = parse_both(ctx, w, key, case)
+                    if m is not None:
+                        fixed_point(ctx, m, key, case)
+                        if feat in ROLE_FEATURES[role] and junk is not None and type(junk) != bool:
+                            raise Violation("C08|%s|%s|wrong-type-accepted" % (cname, slot), "role feature %s.%s=%r (%s) accepted, the WAMP spec types it as a boolean" % (role, feat, junk, jtype(junk)), case)
+                    note(slot, junk, m is not None)
+                    n_mut += 1
     return n_mut
+
+
+# advanced-profile feature names per role (WAMP spec, "feature announcement"); all are booleans
+ROLE_FEATURES = {
+    "publisher": ["publisher_identification", "subscriber_blackwhite_listing", "publisher_exclusion", "payload_transparency", "payload_encryption_cryptobox", "x_acknowledged_event_delivery"],
+    "subscriber": ["publisher_identification", "pattern_based_subscription", "subscription_revocation", "payload_transparency", "payload_encryption_cryptobox"],
+    "caller": ["caller_identification", "call_timeout", "call_canceling", "progressive_call_results", "payload_transparency", "payload_encryption_cryptobox"],
+    "callee": ["caller_identification", "call_trustlevels", "pattern_based_registration", "shared_registration", "call_timeout", "call_canceling", "progressive_call_results",
+               "registration_revocation", "payload_transparency", "payload_encryption_cryptobox"],
+    "broker": ["publisher_identification", "publication_trustlevels", "pattern_based_subscription", "subscription_meta_api", "subscriber_blackwhite_listing", "session_meta_api",
+               "publisher_exclusion", "subscription_revocation", "event_retention", "payload_transparency", "payload_encryption_cryptobox", "x_acknowledged_event_delivery"],
+    "dealer": ["caller_identification", "call_trustlevels", "pattern_based_registration", "registration_meta_api", "shared_registration", "call_timeout", "call_canceling",
+               "progressive_call_results", "registration_revocation", "session_meta_api", "testament_meta_api", "payload_transparency", "payload_encryption_cryptobox"],
+}
 
 
 def _allowed_alt(cname, k, junk):
